@@ -945,7 +945,36 @@ def meetup_candidates(F, sigma):
             return Eval.ev(self, n)
 
     ev = MEval(F, lambda b: False, lambda i: "i")
-    ev.cond_resolver = lambda c: (lambda r: None if r is None or r[0] not in sigma else sigma[r[0]] == r[1])(_border_pred(F, c))
+    loopvar = {}            # did of the induction variable of the candidate loop -> text of its start value
+
+    def sit(c):
+        """truth of a test on the situation: border predicates, `<loop variable> == <its start | 0>` (the first column),
+        and && / || / ! of those; None if it is something else"""
+        c = c.strip(casts=True)
+        if c.k == "UnaryOperator" and c.d["op"] == "!":
+            v = sit(c.kids[0])
+            return None if v is None else (not v)
+        if c.k == "BinaryOperator" and c.d["op"] in ("&&", "||"):
+            a, b = sit(c.kids[0]), sit(c.kids[1])
+            if a is None or b is None:
+                return None
+            return (a and b) if c.d["op"] == "&&" else (a or b)
+        r = _border_pred(F, c)
+        if r is not None:
+            return None if r[0] not in sigma else sigma[r[0]] == r[1]
+        if c.k == "BinaryOperator" and c.d["op"] in ("==", "!="):
+            l, r_ = c.kids[0].strip(casts=True), c.kids[1].strip(casts=True)
+            for x, y in ((l, r_), (r_, l)):
+                if x.k == "DeclRefExpr" and x.d.get("did") in loopvar and "first" in sigma:
+                    if y.cv == 0 and y.k == "IntegerLiteral":
+                        v = sigma["first"] and not sigma.get("startb!=0", True)       # i == 0: the first column of a rectangle at the left end
+                    elif y.text().replace(" ", "") == loopvar[x.d["did"]] or _coord_atom(F, y) == "startb":
+                        v = sigma["first"]
+                    else:
+                        return None
+                    return v if c.d["op"] == "==" else (not v)
+        return None
+    ev.cond_resolver = sit
     out = []
 
     def walk(stmts, piece):
@@ -964,17 +993,19 @@ def meetup_candidates(F, sigma):
                         if _atoms(v) <= PURE:                   # a price chosen once, e.g. (endb == len_b) ? tgpe : gpe
                             ev.consts[kid.decl["did"]] = v
             elif st.k in ("ForStmt", "WhileStmt", "DoStmt"):
+                init = st.child("init")
+                if init is not None and init.k == "BinaryOperator" and init.d["op"] == "=" and init.kids[0].strip().k == "DeclRefExpr":
+                    loopvar[init.kids[0].strip().d["did"]] = init.kids[1].strip(casts=True).text().replace(" ", "")
                 walk([st.child("body")], "loop")
             elif st.k == "IfStmt":
-                r = _border_pred(F, st.child("cond"))
+                r = sit(st.child("cond"))
                 if r is not None:
-                    pred, pol = r
-                    if pred not in sigma:
-                        raise Unsupported("border test %s" % pred)
-                    br = st.child("then") if sigma[pred] == pol else st.child("else")
+                    br = st.child("then") if r else st.child("else")
                     if br is not None:
                         walk([br], piece)
                     continue
+                if _border_pred(F, st.child("cond")) is not None:
+                    raise Unsupported("border test %s" % st.child("cond").text()[:40])
                 c = st.child("cond").strip(casts=True)
                 if c.k == "BinaryOperator" and c.d["op"] in (">", ">=") and c.kids[0].strip(casts=True).ty in ("float", "double"):
                     codes = [a.kids[1].cv for a in st.child("then").find("BinaryOperator") if a.d["op"] == "=" and a.kids[0].strip().ty == "int"
@@ -995,9 +1026,10 @@ def r07f(ck, prog):
     code, forward state + backward state - penalty is the same max-plus form in all three (penalty sources mapped to
     open / extension / terminal), and the value compared is the value stored as the new maximum"""
     import itertools
-    preds = ("startb!=0", "endb!=len_b")
+    preds = ("startb!=0", "endb!=len_b", "first")
     n = 0
-    for vals in itertools.product((True, False), repeat=2):
+    allt = {}
+    for vals in itertools.product((True, False), repeat=3):
         sigma = dict(zip(preds, vals))
         label = ", ".join("%s=%s" % (p, v) for p, v in zip(preds, vals))
         tabs = {}
@@ -1014,6 +1046,7 @@ def r07f(ck, prog):
                     ck.violation("R07f", "R07f/%s/%s/%d/stored" % (name, piece, code), site(prog, st, "transition %d" % code),
                                  "%s: the candidate for transition %d compares %s but stores %s as the new maximum" % (name, code, show(v), show(v2)), prog.config)
             tabs[name] = cands
+            allt[(name, vals)] = cands
         keys = {name: sorted((p, c) for p, c, _, _, _ in tabs[name]) for name in MEETUPS}
         if len({tuple(k) for k in keys.values()}) != 1:
             raise AnalysisBroken("R07f: the meetup functions do not offer the same candidates under %s (%s); not compared (R07a decides the code sets)" % (label, keys))
@@ -1032,6 +1065,25 @@ def r07f(ck, prog):
                                  "a different price than the passes computed" % (name, piece, code, label, " / ".join(show(v) for v in vs[name]),
                                                                                 " / ".join(show(v) for v in ref)), prog.config)
     ck.floor("R07f", n, 30, "meetup candidates")
+    # R07h: a terminal price belongs to a terminal column.  Away from the first column of the scan (first = False) a candidate
+    # of the loop must not depend on whether the rectangle starts at the left end of the sequence: the passes price an
+    # interior column the same in every border situation (their interior piece contains no border test)
+    nh = 0
+    for name in MEETUPS:
+        for endv in (True, False):
+            a = {(p, c): v for p, c, v, _, _ in allt[(name, (True, endv, False))] if p == "loop"}
+            b = {(p, c): (v, st) for p, c, v, _, st in allt[(name, (False, endv, False))] if p == "loop"}
+            for key in sorted(set(a) & set(b)):
+                nh += 1
+                v0, (v1, st) = a[key], b[key]
+                if v0 != v1:
+                    ck.violation("R07h", "R07h/%s/%d" % (name, key[1]), site(prog, st, "transition %d" % key[1]),
+                                 "%s: for every column of the scan - not only the first - the candidate for transition %d is %s when the "
+                                 "rectangle starts at the left end of the sequence and %s otherwise: the terminal price is charged for a gap "
+                                 "in the middle of the sequence, the forward and backward passes charge the interior price there, so the "
+                                 "split is chosen with a score no alignment has" % (name, key[1], show(v1), show(v0)), prog.config)
+        ck.inst("R07h", site(prog, prog.fn(name), "interior columns"), "%s: loop candidates away from the first column compared across the left-border situations" % name, prog.config)
+    ck.floor("R07h", nh, 30, "interior-column candidates")
 
 
 KINDS_ = ("aln_seqseq_", "aln_seqprofile_", "aln_profileprofile_")
@@ -1053,6 +1105,7 @@ def _r07e_controls(ck):
 def run(ck, progs):
     describe(ck)
     ck.rule("R07e", "the three forward kernels implement one recurrence and the three backward kernels one: every straight-line piece leaves the same max-plus normal form in every DP cell and carried local (penalties mapped to open/extension/terminal classes, scores to S)")
+    ck.rule("R07h", "a terminal gap price is charged only at a terminal column: away from the first column of the scan the meetup candidates do not depend on whether the rectangle starts at the left end of the sequence")
     ck.rule("R07f", "the three meetup functions price each transition alike under every border situation, and store the value they compared")
     ck.rule("R07g", "in each kernel the backward pass is the mirror image (left<->right) of the forward pass, piece by piece, in max-plus normal form")
     ck.rule("R07d", "border tests have the right polarity: the branch taken when the border lies inside the sequence uses the interior gap penalties, the other the terminal one")
